@@ -14,7 +14,8 @@ is placed at EVERY point:
     CancelledError, GeneratorExit, and an ordinary exception
   * (async) task.cancel() at suspension point k, for every k
   * raising callback at invocation i, for every i: classifier, result
-    classifier, attempt-start hook, attempt-end hook, strategy
+    classifier, attempt-start hook, attempt-end hook, strategy, abort_if,
+    sleep handler
   * every operation-raised termination again with an always-raising
     attempt-end (and, for attempt 1, attempt-start) hook
 plus the reference run's own normal ending (value, any-class exception, result
@@ -53,7 +54,7 @@ SHRINK_CAP = 150
 OP_KINDS = [("abort", None), ("base", "KeyboardInterrupt"), ("base", "SystemExit"), ("base", "GeneratorExit"),
             ("base", "CancelledError"), ("nested_coe", None), ("nested_ree", None)]
 SLEEP_EXC = ["KeyboardInterrupt", "SystemExit", "CancelledError", "GeneratorExit", "RuntimeError"]
-CALLBACKS = ["classifier", "result_classifier", "attempt_start", "attempt_end", "strategy"]
+CALLBACKS = ["classifier", "result_classifier", "attempt_start", "attempt_end", "strategy", "abort_if", "handler"]
 R_US = 2_000_000
 
 
@@ -74,7 +75,9 @@ def gen(seed, tier="quick"):
     scn["pre"] = pre
     scn["post"] = [["adv", R_US + 1_000_000], ["allow"]]  # strictly past the timeout: immune to float rounding at the boundary
     if scn["mode"] == "async":
-        scn["place"]["bs_async"] = r.random() < 0.6
+        scn["place"]["bs_async"] = r.choice([False, True, True, "aw"])
+    if scn["entry"] != "Policy.noretry" and r.random() < 0.15:
+        scn["cfg"]["attempt_timeout_us"] = 3_600_000_000   # never fires; exercises _call_with_timeout / asyncio.wait_for
     return scn
 
 
@@ -127,7 +130,8 @@ def execute(scn):
     n_sleeps = len(cf0.all("SLEEP_BEGIN"))
     n_susp = len(cf0.all("YIELD"))
     counts = {"classifier": len(cf0.all("CLASSIFY")), "result_classifier": len(cf0.all("RCLASSIFY")),
-              "attempt_start": len(cf0.all("ATT_START")), "attempt_end": len(cf0.all("ATT_END")), "strategy": len(cf0.all("STRATEGY"))}
+              "attempt_start": len(cf0.all("ATT_START")), "attempt_end": len(cf0.all("ATT_END")), "strategy": len(cf0.all("STRATEGY")),
+              "abort_if": len(cf0.all("POLL")), "handler": len(cf0.all("HANDLER"))}
 
     def variant(mut, tag):
         nonlocal runs, sim_us
